@@ -130,6 +130,12 @@ func (v *list_[V]) GetValues(first int, last int) Sequential[V] {
 // Expandable
 
 func (v *list_[V]) InsertValue(slot uint, value V) {
+	if slot > uint(v.GetSize()) {
+		panic(fmt.Sprintf(
+			"The specified slot is outside the allowed range [0..%v]: %v",
+			v.GetSize(),
+			slot))
+	}
 
 	// Create a new larger array.
 	var size = uint(v.GetSize() + 1)
@@ -154,6 +160,15 @@ func (v *list_[V]) InsertValue(slot uint, value V) {
 }
 
 func (v *list_[V]) InsertValues(slot uint, values Sequential[V]) {
+	if slot > uint(v.GetSize()) {
+		panic(fmt.Sprintf(
+			"The specified slot is outside the allowed range [0..%v]: %v",
+			v.GetSize(),
+			slot))
+	}
+	if values.IsEmpty() {
+		return // There is nothing to insert.
+	}
 
 	// Create a new larger array.
 	var size = uint(v.GetSize() + values.GetSize())
